@@ -498,3 +498,240 @@ Proof.
     + assert (E : glyph_ids (set_lib (strip_libs g) (glib g ++ [(objlibs_key, PDict (olibs g))])) = glyph_ids (strip_libs g)) by reflexivity.
       rewrite E, strip_ids. exact ND.
 Qed.
+
+(* ---------- well-formed plist values: sorting keeps them, plain text makes them readable ---------- *)
+Lemma forallb_perm {A} (f : A -> bool) l1 l2 : Permutation l1 l2 -> forallb f l1 = true -> forallb f l2 = true.
+Proof.
+  intros P H. apply forallb_forall. intros x Hx. rewrite forallb_forall in H. apply H.
+  eapply Permutation_in; [apply Permutation_sym; exact P|exact Hx].
+Qed.
+
+Lemma pv_good_sorted W : forall v, pv_good W v = true -> pv_good W (sort_keys_rec_pv v) = true.
+Proof.
+  fix IH 1. intros [s|z|x|b|b|s|l|d]; cbn [pv_good sort_keys_rec_pv]; intros H; try exact H.
+  apply andb_true_iff in H as [HN HE]. apply andb_true_iff. split.
+  - apply nodup_keys_spec. eapply Permutation_NoDup.
+    + apply Permutation_sym. apply Permutation_map. apply sort_keys_perm.
+    + rewrite map_values_keys. apply nodup_keys_spec. exact HN.
+  - eapply forallb_perm; [apply Permutation_sym; apply sort_keys_perm|].
+    unfold map_values. revert HE. clear HN. induction d as [|[k x] d IHd]; [reflexivity|].
+    cbn [forallb map]. intros HE. apply andb_true_iff in HE as [H1 H2]. apply andb_true_iff in H1 as [H1 H3].
+    rewrite H1, (IH x H3), (IHd H2). reflexivity.
+Qed.
+
+(** induction over plist values with the nested lists *)
+Section PvInd.
+  Variable P : pv -> Prop.
+  Hypothesis HS : forall s, P (PStr s).
+  Hypothesis HI : forall z, P (PInt z).
+  Hypothesis HR : forall x, P (PReal x).
+  Hypothesis HB : forall b, P (PBool b).
+  Hypothesis HDa : forall b, P (PData b).
+  Hypothesis HDt : forall s, P (PDate s).
+  Hypothesis HA : forall l, Forall P l -> P (PArr l).
+  Hypothesis HD : forall d, Forall (fun kx => P (snd kx)) d -> P (PDict d).
+  Fixpoint pv_ind2 (v : pv) : P v :=
+    match v with
+    | PStr s => HS s | PInt z => HI z | PReal x => HR x | PBool b => HB b | PData b => HDa b | PDate s => HDt s
+    | PArr l => HA l ((fix go (l : list pv) : Forall P l :=
+                         match l with [] => Forall_nil P | x :: r => Forall_cons x (pv_ind2 x) (go r) end) l)
+    | PDict d => HD d ((fix go (d : dict) : Forall (fun kx => P (snd kx)) d :=
+                          match d with
+                          | [] => Forall_nil _
+                          | (k, x) :: r => Forall_cons (P := fun kx => P (snd kx)) (k, x) (pv_ind2 x) (go r)
+                          end) d)
+    end.
+End PvInd.
+
+(** validity that does not depend on the options, and the F3 condition *)
+Lemma pv_good_of_valid W : forall v,
+  pv_valid v = true -> (W = 0%nat \/ pv_plain v = true) -> pv_good W v = true.
+Proof.
+  unfold pv_valid. intros v. induction v as [s|z|x|b|b|s|l IHl|d IHd] using pv_ind2;
+    cbn [pv_good pv_plain]; intros HV HP; try exact HV.
+  - unfold text_ok. destruct HP as [->|HP]; [reflexivity|]. rewrite HP. apply orb_true_r.
+  - induction IHl as [|v l Hv _ IHl]; [reflexivity|]. cbn [forallb] in *.
+    apply andb_true_iff in HV as [H1 H2]. apply andb_true_iff. split.
+    + apply Hv; [exact H1|]. destruct HP as [HP|HP]; [left; exact HP|right]. apply andb_true_iff in HP. apply HP.
+    + apply IHl; [exact H2|]. destruct HP as [HP|HP]; [left; exact HP|right]. apply andb_true_iff in HP. apply HP.
+  - apply andb_true_iff in HV as [HN HE]. rewrite HN. cbn [andb]. clear HN.
+    induction IHd as [|[k x] d Hx _ IHd]; [reflexivity|]. cbn [forallb snd] in *.
+    apply andb_true_iff in HE as [H1 H2]. apply andb_true_iff in H1 as [_ H3].
+    assert (HPk : W = 0%nat \/ (no_newline k = true /\ pv_plain x = true /\
+                  forallb (fun kx => let '(k0, x0) := kx in no_newline k0 && pv_plain x0) d = true)).
+    { destruct HP as [HP|HP]; [left; exact HP|right]. apply andb_true_iff in HP as [HP HP2].
+      apply andb_true_iff in HP as [HP0 HP1]. auto. }
+    apply andb_true_iff. split; [apply andb_true_iff; split|].
+    + unfold text_ok. destruct HPk as [->|(Hk & _)]; [reflexivity|]. rewrite Hk. apply orb_true_r.
+    + apply Hx; [exact H3|]. destruct HPk as [HPk|(_ & Hx' & _)]; auto.
+    + apply IHd; [exact H2|]. destruct HPk as [HPk|(_ & _ & Hd)]; auto.
+Qed.
+
+Lemma ident_no_newline i : ident_valid i = true -> no_newline i = true.
+Proof.
+  unfold ident_valid, no_newline. intros H. apply andb_true_iff in H as [_ H]. apply negb_true_iff.
+  destruct (existsb (N.eqb 10) i) eqn:E; [|reflexivity]. apply existsb_exists in E as (c & Hc & Ec).
+  apply N.eqb_eq in Ec. subst c. rewrite forallb_forall in H. specialize (H 10 Hc). discriminate.
+Qed.
+
+(** a single written value between <lib> and </lib> *)
+Lemma plist_single pf n v : is_element n = true -> pv_of pf n = Some v -> plist_of_nodes pf [n] = Some v.
+Proof. intros HE HP. unfold plist_of_nodes. destruct n; try discriminate; cbn [plist_of_nodes_aux]; rewrite HP; reflexivity. Qed.
+
+(* ---------- key order: sorting commutes with removing a key ---------- *)
+Lemma str_ltb_irrefl a : str_ltb a a = false.
+Proof. induction a as [|x a IH]; [reflexivity|]. cbn [str_ltb]. rewrite N.ltb_irrefl, N.eqb_refl, IH. reflexivity. Qed.
+Lemma str_ltb_trans : forall a b c, str_ltb a b = true -> str_ltb b c = true -> str_ltb a c = true.
+Proof.
+  induction a as [|x a IH]; intros [|y b] [|z c] H1 H2; cbn [str_ltb] in *; try discriminate; try reflexivity.
+  apply orb_true_iff in H1. apply orb_true_iff in H2. apply orb_true_iff.
+  destruct H1 as [H1|H1], H2 as [H2|H2].
+  - left. apply N.ltb_lt in H1. apply N.ltb_lt in H2. apply N.ltb_lt. lia.
+  - apply andb_true_iff in H2 as [E _]. apply N.eqb_eq in E. subst. left; exact H1.
+  - apply andb_true_iff in H1 as [E _]. apply N.eqb_eq in E. subst. left; exact H2.
+  - apply andb_true_iff in H1 as [E1 L1]. apply andb_true_iff in H2 as [E2 L2].
+    apply N.eqb_eq in E1. apply N.eqb_eq in E2. subst. right. rewrite N.eqb_refl. cbn [andb]. eapply IH; eauto.
+Qed.
+Lemma str_ltb_total : forall a b, str_ltb a b = false -> str_ltb b a = false -> a = b.
+Proof.
+  induction a as [|x a IH]; intros [|y b] H1 H2; cbn [str_ltb] in *; try discriminate; [reflexivity|].
+  apply orb_false_iff in H1 as [L1 R1]. apply orb_false_iff in H2 as [L2 R2].
+  apply N.ltb_ge in L1. apply N.ltb_ge in L2. assert (x = y) by lia. subst y.
+  rewrite N.eqb_refl in R1, R2. cbn [andb] in R1, R2. f_equal. apply IH; assumption.
+Qed.
+Lemma str_lt_le_trans a b c : str_ltb a b = true -> str_ltb c b = false -> str_ltb a c = true.
+Proof.
+  intros H1 H2. destruct (str_ltb a c) eqn:E1; [reflexivity|]. destruct (str_ltb c a) eqn:E2.
+  - rewrite (str_ltb_trans _ _ _ E2 H1) in H2. discriminate.
+  - rewrite (str_ltb_total _ _ E1 E2) in H1. rewrite H1 in H2. discriminate.
+Qed.
+
+Fixpoint sorted {A} (l : list (str * A)) : Prop :=
+  match l with
+  | [] => True
+  | (k, _) :: r => (forall k', In k' (map fst r) -> str_ltb k' k = false) /\ sorted r
+  end.
+Lemma insert_sorted_keys {A} k (v : A) l k' :
+  In k' (map fst (insert_sorted k v l)) -> k' = k \/ In k' (map fst l).
+Proof.
+  intros H. eapply Permutation_in in H; [|apply Permutation_map; apply insert_sorted_perm].
+  cbn [map fst In] in H. destruct H as [<-|H]; auto.
+Qed.
+Lemma insert_sorted_sorted {A} k (v : A) l : sorted l -> sorted (insert_sorted k v l).
+Proof.
+  induction l as [|[k1 v1] r IH]; cbn [insert_sorted sorted]; intros H.
+  - split; [intros ? []|exact I].
+  - destruct H as [H1 H2]. destruct (str_ltb k k1) eqn:E; cbn [sorted].
+    + split; [|split; assumption]. intros k' Hk. cbn [map fst In] in Hk. destruct Hk as [<-|Hk].
+      * destruct (str_ltb k1 k) eqn:E2; [|reflexivity]. pose proof (str_ltb_trans _ _ _ E E2) as C.
+        rewrite str_ltb_irrefl in C. discriminate.
+      * destruct (str_ltb k' k) eqn:E2; [|reflexivity]. pose proof (str_ltb_trans _ _ _ E2 E) as C.
+        rewrite (H1 k' Hk) in C. discriminate.
+    + split; [|apply IH; exact H2]. intros k' Hk. apply insert_sorted_keys in Hk as [->|Hk]; [exact E|apply H1; exact Hk].
+Qed.
+Lemma sort_keys_sorted {A} (l : list (str * A)) : sorted (sort_keys l).
+Proof.
+  unfold sort_keys. induction l as [|[k v] l IH]; cbn [fold_right fst snd]; [exact I|].
+  apply insert_sorted_sorted. exact IH.
+Qed.
+Lemma insert_sorted_head {A} k (v : A) l :
+  (forall k', In k' (map fst l) -> str_ltb k k' = true) -> insert_sorted k v l = (k, v) :: l.
+Proof.
+  destruct l as [|[k1 v1] r]; cbn [insert_sorted]; [reflexivity|]. intros H.
+  rewrite (H k1) by (left; reflexivity). reflexivity.
+Qed.
+Lemma filter_insert_out {A} (p : str -> bool) k (v : A) l :
+  p k = false -> filter (fun kv => p (fst kv)) (insert_sorted k v l) = filter (fun kv => p (fst kv)) l.
+Proof.
+  intros H. induction l as [|[k1 v1] r IH]; cbn [insert_sorted filter fst]; [rewrite H; reflexivity|].
+  destruct (str_ltb k k1); cbn [filter fst]; [rewrite H; reflexivity|]. rewrite IH. reflexivity.
+Qed.
+Lemma filter_insert_in {A} (p : str -> bool) k (v : A) l :
+  sorted l -> p k = true ->
+  filter (fun kv => p (fst kv)) (insert_sorted k v l) = insert_sorted k v (filter (fun kv => p (fst kv)) l).
+Proof.
+  intros S H. induction l as [|[k1 v1] r IH]; cbn [insert_sorted filter fst]; [rewrite H; reflexivity|].
+  cbn [sorted] in S. destruct S as [S1 S2]. destruct (str_ltb k k1) eqn:E; cbn [filter fst].
+  - rewrite H. destruct (p k1) eqn:P1.
+    + cbn [insert_sorted]. rewrite E. reflexivity.
+    + symmetry. apply insert_sorted_head. intros k' Hk. apply in_map_iff in Hk as ([k2 v2] & <- & Hin).
+      apply filter_In in Hin as [Hin _]. cbn [fst]. apply (str_lt_le_trans k k1 k2 E). apply S1.
+      apply (in_map fst) in Hin. exact Hin.
+  - destruct (p k1); cbn [insert_sorted]; [rewrite E|]; rewrite (IH S2); reflexivity.
+Qed.
+Lemma remove_key_sort_keys {A} k (l : list (str * A)) : remove_key k (sort_keys l) = sort_keys (remove_key k l).
+Proof.
+  induction l as [|[k1 v1] l IH]; [reflexivity|].
+  change (sort_keys ((k1, v1) :: l)) with (insert_sorted k1 v1 (sort_keys l)).
+  unfold remove_key in *. cbn [filter fst]. destruct (str_eqb k k1) eqn:E; cbn [negb].
+  - rewrite (filter_insert_out (fun x => negb (str_eqb k x))) by (rewrite E; reflexivity). exact IH.
+  - rewrite (filter_insert_in (fun x => negb (str_eqb k x))); [|apply sort_keys_sorted|rewrite E; reflexivity].
+    change (sort_keys ((k1, v1) :: filter (fun kv => negb (str_eqb k (fst kv))) l))
+      with (insert_sorted k1 v1 (sort_keys (filter (fun kv => negb (str_eqb k (fst kv))) l))).
+    f_equal. exact IH.
+Qed.
+Lemma remove_key_map_values f k d : remove_key k (map_values f d) = map_values f (remove_key k d).
+Proof.
+  unfold remove_key, map_values. induction d as [|[k1 v1] d IH]; [reflexivity|]. cbn [map filter fst].
+  destruct (str_eqb k k1); cbn [negb map]; rewrite IH; reflexivity.
+Qed.
+(** the sorted lib without the object libs is the sorted glyph lib *)
+Lemma remove_key_sorted_snoc k v d :
+  lookup k d = None -> remove_key k (sort_keys_rec (d ++ [(k, v)])) = sort_keys_rec d.
+Proof.
+  intros H. rewrite !sort_keys_rec_eq, remove_key_sort_keys, remove_key_map_values, (remove_key_snoc k v d H). reflexivity.
+Qed.
+
+(* ---------- reading the object libs back from the sorted dictionary ---------- *)
+Lemma attach_sorted od id :
+  NoDup (map fst od) -> attach (sort_keys_rec od) id = option_map sort_keys_rec (attach od id).
+Proof.
+  intros ND. unfold attach. destruct id as [i|]; [|reflexivity]. rewrite (lookup_sort_keys_rec i od ND).
+  destruct (lookup i od) as [[s|z|x|b|b|s|l|d]|]; reflexivity.
+Qed.
+Lemma all_dicts_sorted od : NoDup (map fst od) -> all_dicts od -> all_dicts (sort_keys_rec od).
+Proof.
+  intros ND AD i x H. rewrite (lookup_sort_keys_rec i od ND) in H. destruct (lookup i od) as [y|] eqn:E; [|discriminate].
+  injection H as <-. destruct (AD i y E) as (d & ->). eexists. reflexivity.
+Qed.
+
+(* ---------- conditions on every object lib ---------- *)
+Lemma forallb_map {A B} (f : B -> bool) (h : A -> B) l : forallb f (map h l) = forallb (fun x => f (h x)) l.
+Proof. induction l as [|x l IH]; [reflexivity|]. cbn [map forallb]. rewrite IH. reflexivity. Qed.
+Lemma libs_all_objs P g : libs_all P g = forallb (fun x : obj => P (snd x)) (gobjs g).
+Proof.
+  unfold libs_all, gobjs. rewrite !forallb_app, !forallb_map. cbn [snd]. rewrite !andb_assoc. f_equal. f_equal.
+  induction (filter has_points (gcontours g)) as [|c cs IH]; [reflexivity|]. cbn [forallb cobjs flat_map].
+  fold (cobjs cs). rewrite forallb_app. cbn [forallb snd]. rewrite forallb_map. cbn [snd]. rewrite IH. reflexivity.
+Qed.
+
+Lemma rules_have_ids g : glyph_rules g -> libs_have_ids g.
+Proof.
+  intros (_ & _ & _ & _ & RG & RA & RK & RC & _). unfold libs_have_ids. repeat split.
+  - eapply Forall_impl; [|exact RA]. intros a (_ & _ & _ & H). exact H.
+  - eapply Forall_impl; [|exact RG]. intros a (_ & _ & _ & _ & H). exact H.
+  - eapply Forall_impl; [|exact RC]. intros c (_ & _ & RP & _ & H). split; [exact H|].
+    eapply Forall_impl; [|exact RP]. intros p (_ & _ & Hp). exact Hp.
+  - eapply Forall_impl; [|exact RK]. intros a (_ & _ & H). exact H.
+Qed.
+Lemma rules_have_points g : glyph_rules g -> Forall (fun c => has_points c = true) (gcontours g).
+Proof.
+  intros (_ & _ & _ & _ & _ & _ & _ & RC & _). eapply Forall_impl; [|exact RC]. intros c (H & _).
+  unfold has_points. destruct (cpoints c); [contradiction|reflexivity].
+Qed.
+Lemma rules_ident_objs g :
+  glyph_rules g -> Forall (fun x : obj => opt_ok ident_valid (fst x)) (gobjs g).
+Proof.
+  intros R. pose proof (rules_have_points g R) as HP. destruct R as (_ & _ & _ & _ & RG & RA & RK & RC & _).
+  unfold gobjs. rewrite (filter_all _ _ HP). rewrite !Forall_app. repeat split.
+  - apply Forall_forall. intros x Hx. apply in_map_iff in Hx as (a & <- & Ha). rewrite Forall_forall in RA.
+    destruct (RA a Ha) as (_ & _ & H & _). exact H.
+  - apply Forall_forall. intros x Hx. apply in_map_iff in Hx as (a & <- & Ha). rewrite Forall_forall in RG.
+    destruct (RG a Ha) as (_ & _ & _ & H & _). exact H.
+  - apply Forall_forall. intros x Hx. unfold cobjs in Hx. apply in_flat_map in Hx as (c & Hc & Hx).
+    rewrite Forall_forall in RC. destruct (RC c Hc) as (_ & _ & RP & H & _).
+    destruct Hx as [<-|Hx]; [exact H|]. apply in_map_iff in Hx as (p & <- & Hp). rewrite Forall_forall in RP.
+    destruct (RP p Hp) as (_ & Hi & _). exact Hi.
+  - apply Forall_forall. intros x Hx. apply in_map_iff in Hx as (a & <- & Ha). rewrite Forall_forall in RK.
+    destruct (RK a Ha) as (_ & H & _). exact H.
+Qed.
